@@ -1,6 +1,7 @@
 mod host;
 mod util;
 mod paging;
+mod z80rec;
 
 fn main() {
     let mut it = std::env::args().skip(1);
@@ -11,6 +12,7 @@ fn main() {
     std::panic::set_hook(Box::new(|_| {}));
     match cmd.as_str() {
         "paging" => paging::run(&args),
+        "z80" => z80rec::run(&args),
         _ => {
             eprintln!("unknown sub-command {cmd:?}");
             std::process::exit(2);
